@@ -188,7 +188,7 @@ func main() {
 			"comprehension for join index slice str truth unpack < keys values items get |) to generated values (int/str/nested lists, empty list, dicts with list and dict " +
 			"members): interpreted by the real asp once with the value defined in the BUILD file and once imported through subinclude. distinct = distinct (value, application) " +
 			"pairs; all are non-trivial (the imported run crosses a Freeze)")
-		reps := c.Scale(5, 120)
+		reps := c.Scale(6, 120)
 		for _, a := range apps() {
 			for k := 0; k < reps; k++ {
 				rg := c.Rng.Fork()
